@@ -98,6 +98,21 @@ func refUnpack(octets []byte, n int) []byte {
 	return out
 }
 
+// refPack packs septets: septet i occupies bits 7i..7i+6 of the little-endian
+// bit stream; spare bits are zero (no CR fill: the decoders must cope with both).
+func refPack(septets []byte) []byte {
+	out := make([]byte, (7*len(septets)+7)/8)
+	for i, v := range septets {
+		bit := 7 * i
+		w := uint16(v&0x7f) << (uint(bit) % 8)
+		out[bit/8] |= byte(w)
+		if bit/8+1 < len(out) {
+			out[bit/8+1] |= byte(w >> 8)
+		}
+	}
+	return out
+}
+
 // septetCounts: the numbers of septets that pack into exactly n octets
 // (two candidates when the last octet may hold only padding).
 func septetCounts(n int) []int {
